@@ -3,6 +3,7 @@ CONSTANTS
   Ids = {1, 2}
   Times = {1, 2}
   Vals = {1, 2}
+  Unmeasured = FALSE
   Unbalanced = FALSE
 SPECIFICATION Spec
 CHECK_DEADLOCK FALSE
